@@ -130,7 +130,9 @@ def cls_efforts(rnd):
         t = ('project p "P" 2025-03-03 +1w {\n  timezone "Etc/UTC"\n}\nresource r "r" {}\n'
              'task big "big" {\n  effort %s\n  allocate r\n}\ntask after "after" {\n  effort 3h\n  allocate r\n  depends big\n}\n' % g)
         return dict(res=60, giant=True), t
-    big = rnd.choice(["0min", "0h", "1min", "0.5h", "900h", "5000h", "700d", "40w", "123456min", "99999999999h", "9999999999d"])
+    big = rnd.choice(["0min", "0h", "1min", "0.5h", "900h", "5000h", "700d", "40w", "123456min", "99999999999h", "9999999999d",
+                      # efforts below every tolerance: still work, not "done before anything is booked"
+                      "0.000000001h", "0.0000000001h", "0.00000000001d", "0.000000001h"])
     k = rnd.random()
     if k < 0.25:
         # 'flags contiguous' (the task must not be split across breaks), with and without an allocation, also in a
@@ -178,6 +180,14 @@ def cls_efforts(rnd):
     if efforts:
         e = rnd.choice(efforts)
         text = text[:e.start()] + "effort " + big + text[e.end():]
+        if big.startswith("0.0000") and rnd.random() < 0.6:
+            # ... with an alternative to fall back on, or pinned to an instant inside a slot of a day off
+            mo = re.compile(r"\n(\s*)allocate (\w+)\n").search(text, e.start())
+            if mo and rnd.random() < 0.6:
+                text = text[:mo.start()] + "\n%sallocate %s { alternative %s }\n" % (mo.group(1), mo.group(2), rnd.choice([r["id"] for r in m["resources"]])) + text[mo.end():]
+            elif mo and "start " not in text[e.start():mo.end() + 80]:
+                pin = (m["start"] + timedelta(days=rnd.randrange(0, 7))).strftime("%Y-%m-%d") + rnd.choice(["-09:30", "-03:10", "-17:45"])
+                text = text[:mo.end()] + "%sstart %s\n" % (mo.group(1), pin) + text[mo.end():]
     return m, text
 
 
